@@ -235,7 +235,7 @@ class Model(Hooks):
 
 def budget(tier):
     if tier == 'quick':
-        return dict(examples=3200, wall=100)
+        return dict(examples=6000, wall=100)
     return dict(examples=100000, wall=1500)
 
 
